@@ -8,6 +8,18 @@ use crate::__verif_common::*;
 // finish). It is replaced by a look-up in a harness-owned table with the same contract:
 // "the definition registered under exactly this name, or an error".
 static mut DEFS: Vec<(&'static str, Vec<Member>)> = Vec::new();
+// log of the look-ups (index into DEFS, 9 = not found), for the dependency-closure query
+const MAXLOOKUPS: usize = 8;
+static mut LOOKUPS: [usize; MAXLOOKUPS] = [99; MAXLOOKUPS];
+static mut LOOKUP_N: usize = 0;
+fn log_lookup(i: usize) {
+    unsafe {
+        if LOOKUP_N < MAXLOOKUPS {
+            LOOKUPS[LOOKUP_N] = i;
+        }
+        LOOKUP_N += 1;
+    }
+}
 
 impl Types {
     fn __verif_type_definition<'a>(&'a self, kind: &'a str) -> Result<TypeDefinition<'a>> {
@@ -15,11 +27,13 @@ impl Types {
             let mut i = 0;
             while i < DEFS.len() {
                 if bytes_eq_sym::<1>(DEFS[i].0.as_bytes(), kind.as_bytes()) {
+                    log_lookup(i);
                     return Ok(TypeDefinition { kind, members: &DEFS[i].1 });
                 }
                 i += 1;
             }
         }
+        log_lookup(9);
         Err(anyhow::Error::msg("missing EIP-712 type definition"))
     }
 }
@@ -33,7 +47,7 @@ fn empty_types() -> Types {
     Types(HashMap::new())
 }
 
-macro_rules! types_harness {
+macro_rules! types_harness_base {
     ($(#[$m:meta])* fn $name:ident() $body:block) => {
         crate::verif_harness! {
             #[kani::stub(crate::typeddata::Types::type_definition, crate::typeddata::Types::__verif_type_definition)]
@@ -44,12 +58,23 @@ macro_rules! types_harness {
         }
     };
 }
+/// the standard harness for typed data: error-message rendering cut away (`core::fmt::write` writes nothing, see common.rs);
+/// queries that need the real rendering (encodeType text) use `types_harness_base!`
+macro_rules! types_harness {
+    ($(#[$m:meta])* fn $name:ident() $body:block) => {
+        types_harness_base! {
+            #[kani::stub(core::fmt::write, crate::__verif_common::fmt_write_stub)]
+            $(#[$m])*
+            fn $name() $body
+        }
+    };
+}
 
 /// `types_harness!` plus the fixed pre-allocation model of `String` (common.rs): for queries whose cost is
 /// dominated by text being appended piecewise to a growing `String` (`to_string()`, `write!(buffer, ..)`).
 macro_rules! types_harness_cap {
     ($(#[$m:meta])* fn $name:ident() $body:block) => {
-        types_harness! {
+        types_harness_base! {
             #[kani::stub(alloc::string::String::new, crate::__verif_common::string_new_stub)]
             #[kani::stub(alloc::string::String::push, crate::__verif_common::string_push_stub)]
             #[kani::stub(alloc::string::String::push_str, crate::__verif_common::string_push_str_stub)]
@@ -314,7 +339,7 @@ fn check_encode_type_with(primary: usize, choices: [u8; 6], arrays: bool) {
 
 macro_rules! encode_type_harness {
     ($($name:ident = $p:expr;)*) => {$(
-        types_harness! {
+        types_harness_base! {
             #[kani::unwind(5)]
             fn $name() {
                 let choices: [u8; 6] = kani::any();
@@ -335,7 +360,7 @@ macro_rules! encode_type_harness {
 encode_type_harness! { c08_encode_type_a = 0; c08_encode_type_b = 1; c08_encode_type_p = 2; }
 
 // Smaller variant: primary P with members (x, y) symbolic, A and B have one symbolic member each.
-types_harness! {
+types_harness_base! {
     #[kani::unwind(5)]
     fn c08_encode_type_small() {
         let c: [u8; 4] = kani::any();
@@ -350,14 +375,14 @@ types_harness! {
 
 // Concrete graphs whose references go through (nested) arrays, including recursion through arrays:
 // P(A[] x,B[2] y) A(P x,bool y) B(A[] x,A y)  and  self-recursive P(P x,A[] y).
-types_harness! {
+types_harness_base! {
     #[kani::unwind(5)]
     fn c08_encode_type_arrays_mutual() {
         check_encode_type(2, [3, 0, 4, 1, 4, 5]);
         kani::cover!(true, "reached");
     }
 }
-types_harness! {
+types_harness_base! {
     #[kani::unwind(5)]
     fn c08_encode_type_arrays_self() {
         check_encode_type(2, [0, 0, 0, 0, 3, 4]);
@@ -999,11 +1024,11 @@ fn check_width(prefix: &'static [u8], array: bool) {
     }
     core::mem::forget(got);
 }
-crate::verif_harness! { #[kani::unwind(4)] fn c08_kind_width_uint() { check_width(b"uint", false) } }
-crate::verif_harness! { #[kani::unwind(4)] fn c08_kind_width_int() { check_width(b"int", false) } }
-crate::verif_harness! { #[kani::unwind(4)] fn c08_kind_width_bytes() { check_width(b"bytes", false) } }
-crate::verif_harness! { #[kani::unwind(4)] fn c08_kind_width_uint_array() { check_width(b"uint", true) } }
-crate::verif_harness! { #[kani::unwind(4)] fn c08_kind_width_bytes_array() { check_width(b"bytes", true) } }
+crate::verif_harness! { #[kani::stub(core::unicode::unicode_data::n::lookup, crate::__verif_common::unicode_n_stub)] #[kani::unwind(2)] fn c08_kind_width_uint() { check_width(b"uint", false) } }
+crate::verif_harness! { #[kani::stub(core::unicode::unicode_data::n::lookup, crate::__verif_common::unicode_n_stub)] #[kani::unwind(2)] fn c08_kind_width_int() { check_width(b"int", false) } }
+crate::verif_harness! { #[kani::stub(core::unicode::unicode_data::n::lookup, crate::__verif_common::unicode_n_stub)] #[kani::unwind(2)] fn c08_kind_width_bytes() { check_width(b"bytes", false) } }
+crate::verif_harness! { #[kani::stub(core::unicode::unicode_data::n::lookup, crate::__verif_common::unicode_n_stub)] #[kani::unwind(2)] fn c08_kind_width_uint_array() { check_width(b"uint", true) } }
+crate::verif_harness! { #[kani::stub(core::unicode::unicode_data::n::lookup, crate::__verif_common::unicode_n_stub)] #[kani::unwind(2)] fn c08_kind_width_bytes_array() { check_width(b"bytes", true) } }
 
 // ------------------------------------------------------------------------------------------------
 // encodeType over symbolic reference graphs with CONCRETE member kinds: every member is
@@ -1106,9 +1131,9 @@ fn check_encode_type_names(primary: usize) {
     }
     core::mem::forget(got);
 }
-types_harness! { #[kani::unwind(8)] fn c08_encode_type_names_p() { check_encode_type_names(2) } }
-types_harness! { #[kani::unwind(8)] fn c08_encode_type_names_a() { check_encode_type_names(0) } }
-types_harness! { #[kani::unwind(8)] fn c08_encode_type_names_b() { check_encode_type_names(1) } }
+types_harness_base! { #[kani::unwind(8)] fn c08_encode_type_names_p() { check_encode_type_names(2) } }
+types_harness_base! { #[kani::unwind(8)] fn c08_encode_type_names_a() { check_encode_type_names(0) } }
+types_harness_base! { #[kani::unwind(8)] fn c08_encode_type_names_b() { check_encode_type_names(1) } }
 types_harness_cap! { #[kani::unwind(8)] fn c08_encode_type_names_p_cap() { check_encode_type_names(2) } }
 types_harness_cap! { #[kani::unwind(8)] fn c08_encode_type_names_a_cap() { check_encode_type_names(0) } }
 
@@ -1157,33 +1182,31 @@ impl Types {
         }
     }
 }
-crate::verif_harness! {
-    #[kani::stub(crate::typeddata::Types::type_definition, crate::typeddata::Types::__verif_type_definition)]
-    #[kani::stub(crate::typeddata::Types::type_hash, crate::typeddata::Types::__verif_type_hash)]
-    #[kani::stub(crate::typeddata::Types::encode_value, crate::typeddata::Types::__verif_encode_value)]
-    #[kani::stub(std::hash::RandomState::new, random_state_stub)]
-    #[kani::stub(ethdigest::Digest::of, crate::__verif_common::digest_of_stub)]
-    #[kani::unwind(14)]
-    fn c08_struct_hash() {
+fn check_struct_hash<const MASK: u8>() {
         unsafe {
             DEFS = vec![("T", vec![member("a", MemberKind::Bool), member("b", MemberKind::String)])];
             TH_CALLS = 0;
             EV_CALLS = 0;
         }
-        let present: [bool; 3] = kani::any();
+        // which members the object holds is concrete per query (the JSON object is a BTreeMap: with a symbolic shape the
+        // query did not finish in 30 min); values, typeHash, member words and per-member verdicts are symbolic
+        let present: [bool; 3] = [MASK & 1 != 0, MASK & 2 != 0, MASK & 4 != 0];
         let mut data = JsonObject::new();
         // inserted in an order that is neither declaration nor key order
-        if present[2] { data.insert("c".to_string(), Value::Number(serde_json::Number::from(3u64))); }
+        // the undeclared member's value is a number or JSON null (a `null` left-over must not pass for "consumed")
+        let extra_null: bool = kani::any();
+        if present[2] {
+            data.insert("c".to_string(), if extra_null { Value::Null } else { Value::Number(serde_json::Number::from(3u64)) });
+        }
         if present[1] { data.insert("b".to_string(), Value::Number(serde_json::Number::from(2u64))); }
         if present[0] { data.insert("a".to_string(), Value::Number(serde_json::Number::from(1u64))); }
         let types = empty_types();
         let got = types.struct_hash("T", data);
         let conforming = present[0] && present[1] && !present[2];
-        kani::cover!(got.is_ok(), "hashed");
-        kani::cover!(conforming && got.is_err(), "encoding error propagated");
-        kani::cover!(!present[0] && present[1], "first member missing");
-        kani::cover!(present[0] && !present[1], "second member missing");
-        kani::cover!(present[0] && present[1] && present[2], "undeclared member");
+        kani::cover!(!conforming || got.is_ok(), "conforming object hashed");
+        kani::cover!(!conforming || got.is_err(), "encoding error propagated");
+        kani::cover!(conforming || got.is_err(), "non-conforming object refused");
+        kani::cover!(!present[2] || extra_null, "undeclared member whose value is null");
         unsafe {
             match &got {
                 Ok(d) => {
@@ -1197,7 +1220,7 @@ crate::verif_harness! {
                     pre[32..64].copy_from_slice(&EV_OUT[0]);
                     pre[64..96].copy_from_slice(&EV_OUT[1]);
                     assert!(digest_calls() == 1);
-                    digest_expect(0, &pre, &d.0);
+                    digest_expect96(0, &pre, &d.0);
                 }
                 Err(_) => {
                     assert!(!conforming || EV_FAIL[0] || EV_FAIL[1], "conforming object refused");
@@ -1206,5 +1229,230 @@ crate::verif_harness! {
             }
         }
         core::mem::forget(got);
+}
+macro_rules! struct_hash_harness {
+    ($($name:ident = $m:expr;)*) => {$(
+        crate::verif_harness! {
+            #[kani::stub(crate::typeddata::Types::type_definition, crate::typeddata::Types::__verif_type_definition)]
+            #[kani::stub(crate::typeddata::Types::type_hash, crate::typeddata::Types::__verif_type_hash)]
+            #[kani::stub(crate::typeddata::Types::encode_value, crate::typeddata::Types::__verif_encode_value)]
+            #[kani::stub(std::hash::RandomState::new, random_state_stub)]
+            #[kani::stub(ethdigest::Digest::of, crate::__verif_common::digest_of_stub96)]
+            #[kani::unwind(8)]
+            fn $name() { check_struct_hash::<$m>() }
+        }
+    )*};
+}
+struct_hash_harness! {
+    c08_struct_hash_m0 = 0; c08_struct_hash_m1 = 1; c08_struct_hash_m2 = 2; c08_struct_hash_m3 = 3;
+    c08_struct_hash_m4 = 4; c08_struct_hash_m5 = 5; c08_struct_hash_m6 = 6; c08_struct_hash_m7 = 7;
+}
+
+// ================================================================================= C08: dependency closure of encodeType
+// `Types::encode_type` with the RENDERING cut away (`core::fmt::write` writes nothing and counts its invocations): what is
+// decided is the work-list / closure logic -- the part that was wrong in the original tree (defect D2). Every type that
+// encode_type resolves goes through `type_definition` (here: the table look-up, which logs the index) exactly when it is
+// inserted into the set of sub-types, and every sub-type is rendered by exactly one top-level `write!`. All 4^6 reference
+// graphs on {A, B, P} with two members each (each member a reference to A, B, P or the leaf Z), primary type P, A or B:
+//   * the first look-up is the primary type; afterwards exactly the transitively referenced types other than the primary
+//     are looked up, each exactly ONCE (no type resolved twice, the primary never again, nothing unreferenced);
+//   * the number of top-level renderings is 4 (primary: name, two members, closing parenthesis) + the number of sub-types.
+// Not decided here: that the sub-types are emitted in name order (BTreeMap iteration, std) and the text of each definition
+// (Display impls, see c08_display_*).
+fn check_encode_type_closure(primary: usize) {
+    let c: [u8; 6] = kani::any();
+    let mut i = 0;
+    while i < 6 {
+        kani::assume(c[i] < 4);
+        i += 1;
+    }
+    let name_of = |k: u8| -> String {
+        let mut s = String::with_capacity(8);
+        s.push(NAMES4[k as usize] as char);
+        s
+    };
+    let mut defs = Vec::new();
+    let mut t = 0;
+    while t < 3 {
+        defs.push((TNAMES[t], vec![
+            member("x", MemberKind::Struct(name_of(c[2 * t]))),
+            member("y", MemberKind::Struct(name_of(c[2 * t + 1]))),
+        ]));
+        t += 1;
+    }
+    defs.push(("Z", vec![]));
+    unsafe {
+        DEFS = defs;
+        LOOKUP_N = 0;
+        FMT_WRITES = 0;
+    }
+    let types = empty_types();
+    let got = types.encode_type(TNAMES[primary]);
+    // oracle: transitive closure over {A, B, P, Z} (index 3 = Z)
+    let mut reach = [false; 4];
+    let mut work = [false; 4];
+    work[primary] = true;
+    let mut round = 0;
+    while round < 3 {
+        let mut t = 0;
+        while t < 3 {
+            if work[t] {
+                let mut m = 0;
+                while m < 2 {
+                    let r = c[2 * t + m] as usize;
+                    if !reach[r] {
+                        reach[r] = true;
+                        work[r] = true;
+                    }
+                    m += 1;
+                }
+            }
+            t += 1;
+        }
+        round += 1;
+    }
+    kani::cover!(reach[primary], "recursive primary type");
+    kani::cover!(reach[0] && reach[1] && reach[2] && reach[3], "everything reachable");
+    kani::cover!(c[2 * primary] == c[2 * primary + 1], "repeated dependency");
+    kani::cover!(c[2 * primary] != c[2 * primary + 1] && c[2 * primary + 1] as usize != primary && reach[primary], "mutual recursion");
+    kani::cover!(!reach[0] && !reach[1] && !reach[2], "only the leaf type referenced");
+    assert!(got.is_ok(), "encodeType failed on a closed type graph");
+    unsafe {
+        let mut subs = 0;
+        let mut t = 0;
+        while t < 4 {
+            if reach[t] && t != primary {
+                subs += 1;
+            }
+            t += 1;
+        }
+        assert!(LOOKUP_N == 1 + subs, "encodeType resolved a type twice, resolved the primary type again, or missed a referenced type");
+        assert!(LOOKUPS[0] == primary, "the primary type is resolved first");
+        let mut t = 0;
+        while t < 4 {
+            let mut n = 0;
+            let mut k = 1;
+            while k < MAXLOOKUPS {
+                if k < LOOKUP_N && LOOKUPS[k] == t {
+                    n += 1;
+                }
+                k += 1;
+            }
+            let expected = if reach[t] && t != primary { 1 } else { 0 };
+            assert!(n == expected, "set of resolved sub-types differs from the transitive closure minus the primary type");
+            t += 1;
+        }
+        assert!(FMT_WRITES == 4 + subs, "number of rendered definitions differs from primary + sub-types");
+    }
+    core::mem::forget(got);
+}
+macro_rules! closure_harness {
+    ($($name:ident = $p:expr;)*) => {$(
+        types_harness! {
+            #[kani::unwind(8)]
+            fn $name() { check_encode_type_closure($p) }
+        }
+    )*};
+}
+closure_harness! { c08_closure_p = 2; c08_closure_a = 0; c08_closure_b = 1; }
+
+// A struct type WITHOUT members: hashStruct = keccak256(typeHash) -- one Keccak over exactly the 32 bytes of the type hash
+// (not the bare type hash); any member in the value is undeclared and refused.
+crate::verif_harness! {
+    #[kani::stub(crate::typeddata::Types::type_definition, crate::typeddata::Types::__verif_type_definition)]
+    #[kani::stub(crate::typeddata::Types::type_hash, crate::typeddata::Types::__verif_type_hash)]
+    #[kani::stub(crate::typeddata::Types::encode_value, crate::typeddata::Types::__verif_encode_value)]
+    #[kani::stub(std::hash::RandomState::new, random_state_stub)]
+    #[kani::stub(ethdigest::Digest::of, crate::__verif_common::digest_of_stub80)]
+    #[kani::unwind(8)]
+    fn c08_struct_hash_empty() {
+        unsafe {
+            DEFS = vec![("T", vec![])];
+            TH_CALLS = 0;
+            EV_CALLS = 0;
+        }
+        let extra: bool = kani::any();
+        let mut data = JsonObject::new();
+        if extra { data.insert("c".to_string(), Value::Null); }
+        let types = empty_types();
+        let got = types.struct_hash("T", data);
+        kani::cover!(got.is_ok(), "hashed");
+        kani::cover!(got.is_err(), "undeclared member refused");
+        unsafe {
+            match &got {
+                Ok(d) => {
+                    assert!(!extra, "undeclared member of a memberless struct accepted");
+                    assert!(TH_CALLS == 1 && TH_KIND_OK && EV_CALLS == 0);
+                    assert!(digest_calls() == 1, "hashStruct of a memberless struct is keccak256(typeHash), not the bare typeHash");
+                    digest_expect80(0, &TH_OUT, &d.0);
+                }
+                Err(_) => {
+                    assert!(extra, "memberless struct refused");
+                    assert!(digest_calls() == 0);
+                }
+            }
+        }
+        core::mem::forget(got);
     }
 }
+
+// ================================================================================= C08: encodeType on a family of concrete graphs
+// Symbolic graphs are out of reach (the BTreeMap of sub-types keyed by symbolic names: no result in 40 min even with the
+// rendering cut away). What IS decided: a finite family of CONCRETE reference graphs -- the shapes on which the original
+// defect D2 and the seeded changes depend: member orders [B, A, A] / [A, A, B] / [A, B, A], a chain, a diamond, a self-recursive
+// primary type, mutual recursion through the primary type, recursion among sub-types, an array reference -- selected by a
+// symbolic index, with the REAL rendering (Display, `write!`) and the real BTreeMap. This is an enumeration of shapes decided
+// by the solver, not a statement about all graphs.
+fn sref(name: &str) -> MemberKind {
+    MemberKind::Struct(name.to_string())
+}
+fn aref(name: &str) -> MemberKind {
+    MemberKind::Array(Box::new(MemberKind::Struct(name.to_string())), None)
+}
+fn concrete_graph(g: u8) -> (Vec<(&'static str, Vec<Member>)>, &'static str) {
+    match g {
+        // repeated dependency listed last (the order on which D2 lost `B`)
+        0 => (vec![("P", vec![member("x", sref("B")), member("y", sref("A")), member("z", sref("A"))]),
+                   ("A", vec![member("v", MemberKind::Bool)]), ("B", vec![member("w", MemberKind::Address)])],
+              "P(B x,A y,A z)A(bool v)B(address w)"),
+        1 => (vec![("P", vec![member("x", sref("A")), member("y", sref("A")), member("z", sref("B"))]),
+                   ("A", vec![member("v", MemberKind::Bool)]), ("B", vec![member("w", MemberKind::Address)])],
+              "P(A x,A y,B z)A(bool v)B(address w)"),
+        // self-recursive primary type through an array: never repeated
+        2 => (vec![("P", vec![member("next", aref("P")), member("x", sref("A"))]), ("A", vec![member("v", MemberKind::Bool)])],
+              "P(P[] next,A x)A(bool v)"),
+        // mutual recursion through the primary type, reached transitively
+        3 => (vec![("P", vec![member("x", sref("B"))]), ("B", vec![member("y", sref("A"))]), ("A", vec![member("z", aref("P"))])],
+              "P(B x)A(P[] z)B(A y)"),
+        // diamond: C referenced twice through different sub-types, emitted once; name order A, B, C
+        4 => (vec![("P", vec![member("x", sref("B")), member("y", sref("A"))]), ("A", vec![member("c", sref("C"))]),
+                   ("B", vec![member("c", sref("C"))]), ("C", vec![member("v", MemberKind::Uint(256))])],
+              "P(B x,A y)A(C c)B(C c)C(uint256 v)"),
+        // recursion among sub-types only; an unreferenced type (Z) is not emitted
+        5 => (vec![("P", vec![member("x", sref("A"))]), ("A", vec![member("b", sref("B"))]), ("B", vec![member("a", aref("A"))]),
+                   ("Z", vec![member("v", MemberKind::Bool)])],
+              "P(A x)A(B b)B(A[] a)"),
+        // no references at all
+        _ => (vec![("P", vec![member("v", MemberKind::Bytes(Some(32))), member("s", MemberKind::String)])], "P(bytes32 v,string s)"),
+    }
+}
+fn check_encode_type_concrete<const LO: u8, const HI: u8>() {
+    let g: u8 = kani::any();
+    kani::assume(g >= LO && g <= HI);
+    let (defs, expected) = concrete_graph(g);
+    unsafe { DEFS = defs; }
+    let types = empty_types();
+    let got = types.encode_type("P");
+    kani::cover!(g == LO, "first graph of the family");
+    kani::cover!(g == HI, "last graph of the family");
+    match &got {
+        Ok(text) => {
+            assert!(text.len() == expected.len(), "encodeType: wrong set of referenced types or wrong rendering (length differs)");
+            assert!(bytes_eq_sym::<3>(text.as_bytes(), expected.as_bytes()), "encodeType differs from primary + name-sorted transitive dependencies");
+        }
+        Err(_) => panic!("encodeType failed on a closed type graph"),
+    }
+    core::mem::forget(got);
+}
+types_harness_cap! { #[kani::unwind(8)] fn c08_encode_type_concrete_0() { check_encode_type_concrete::<0, 0>() } }
+types_harness_cap! { #[kani::unwind(8)] fn c08_encode_type_concrete_all() { check_encode_type_concrete::<0, 6>() } }
